@@ -51,6 +51,7 @@ structure St where
   handed : List Nat := []           -- log of hand-overs (order of `delegate.submit`)
   enq : List Nat := []              -- log of enqueues
   cancelled : List Nat := []        -- removed from the queue by `cancel()`
+  qGauge : Int := 0                 -- the `throttle_queue` gauge
 deriving Repr
 
 inductive Act
@@ -79,7 +80,7 @@ def evalThrottle (last : Option Nat) : Option (Option Nat) → Option Nat
 def step (s : St) : Act → Option St
   | .enqueue k =>
       if k ∈ s.enq then none else
-      some { s with queue := s.queue ++ [k], enq := s.enq ++ [k], pendingSet := s.pendingSet + 1 }
+      some { s with queue := s.queue ++ [k], enq := s.enq ++ [k], pendingSet := s.pendingSet + 1, qGauge := s.qGauge + 1 }
   | .setE =>
       some { s with flag := true, pendingSet := s.pendingSet - 1 }
   | .evalW r =>
@@ -95,13 +96,13 @@ def step (s : St) : Act → Option St
       if s.wpc = .adm then
         let r := K4.admission (s.queue.take j) s.running s.wThrottle
         if r.2.1 = [] then
-          some { s with committed := s.committed ++ r.1, queue := s.queue.drop j, running := r.2.2.1 }
+          some { s with committed := s.committed ++ r.1, queue := s.queue.drop j, running := r.2.2.1, qGauge := s.qGauge - r.2.2.2 }
         else none
       else none
   | .admitA =>
       if s.wpc = .adm then
         let r := K4.admission s.queue s.running s.wThrottle
-        some { s with committed := s.committed ++ r.1, queue := r.2.1, running := r.2.2.1, wpc := .hand }
+        some { s with committed := s.committed ++ r.1, queue := r.2.1, running := r.2.2.1, wpc := .hand, qGauge := s.qGauge - r.2.2.2 }
       else none
   | .handOver k =>
       match s.wpc, s.committed with
@@ -117,7 +118,7 @@ def step (s : St) : Act → Option St
         some { s with undecr := s.undecr.erase k, running := s.running - 1, pendingSet := s.pendingSet + 1 }
       else none
   | .cancelQ k =>
-      if k ∈ s.queue then some { s with queue := s.queue.erase k, cancelled := s.cancelled ++ [k] } else none
+      if k ∈ s.queue then some { s with queue := s.queue.erase k, cancelled := s.cancelled ++ [k], qGauge := s.qGauge - 1 } else none
   | .waitE =>
       if s.wpc = .wait then some { s with wpc := if s.flag then .clear else .parked } else none
   | .wake =>
